@@ -106,6 +106,34 @@ class Rename(ast.NodeTransformer):
     visit_GeneratorExp = visit_SetComp = visit_DictComp = visit_ListComp
 
 
+class Noop(ast.NodeTransformer):
+    """T4: a no-op statement at the start of every function body, loop body and if-branch (skipping docstrings)."""
+
+    def _ins(self, body):
+        k = 1 if body and isinstance(body[0], ast.Expr) and isinstance(body[0].value, ast.Constant) and isinstance(body[0].value.value, str) else 0
+        return body[:k] + [ast.Pass()] + body[k:]
+
+    def visit_FunctionDef(self, n):
+        self.generic_visit(n)
+        n.body = self._ins(n.body)
+        return n
+
+    def visit_For(self, n):
+        self.generic_visit(n)
+        n.body = self._ins(n.body)
+        return n
+
+    def visit_While(self, n):
+        self.generic_visit(n)
+        n.body = self._ins(n.body)
+        return n
+
+    def visit_If(self, n):
+        self.generic_visit(n)
+        n.body = self._ins(n.body)
+        return n
+
+
 def main():
     kind, out = sys.argv[1], pathlib.Path(sys.argv[2])
     root = pathlib.Path('/repo')
@@ -119,6 +147,8 @@ def main():
             tree = Mirror().visit(tree)
         elif kind == 'T2':
             tree = Rename().visit(tree)
+        elif kind == 'T4':
+            tree = Noop().visit(tree)
         ast.fix_missing_locations(tree)
         q = out / rel
         q.parent.mkdir(parents=True, exist_ok=True)
